@@ -22,28 +22,38 @@ Local Open Scope nat_scope.
 Section Compose.
 Variable b0 : bufid.
 Variable kof : nat -> nat.     (* the number of handles each spawned thread is given *)
+Variable bof : nat -> bool.    (* the thread is a scoped thread that is lent &handle (and given no handle of its own) *)
 
 (* ---------- ghost updates (the ones okc prescribes) ---------- *)
 Definition g_alloc (g : ghost) (b : bufid) : ghost :=
-  {| g_refs := setf (g_refs g) b 1%nat; g_excl := setf (g_excl g) b true; g_free := g_free g; g_fen := g_fen g |}.
+  {| g_refs := setf (g_refs g) b 1%nat; g_excl := setf (g_excl g) b true; g_free := g_free g; g_fen := g_fen g; g_bor := g_bor g |}.
 Definition g_dealloc (g : ghost) (b : bufid) : ghost :=
-  {| g_refs := g_refs g; g_excl := g_excl g; g_free := setf (g_free g) b false; g_fen := g_fen g |}.
+  {| g_refs := g_refs g; g_excl := g_excl g; g_free := setf (g_free g) b false; g_fen := g_fen g; g_bor := g_bor g |}.
 Definition g_inc (g : ghost) (b : bufid) : ghost :=
-  {| g_refs := setf (g_refs g) b (S (g_refs g b)); g_excl := setf (g_excl g) b false; g_free := g_free g; g_fen := false |}.
+  {| g_refs := setf (g_refs g) b (S (g_refs g b)); g_excl := setf (g_excl g) b false; g_free := g_free g; g_fen := false; g_bor := g_bor g |}.
 Definition g_dec (g : ghost) (b : bufid) (v : N) : ghost :=
   {| g_refs := setf (g_refs g) b (g_refs g b - 1)%nat; g_excl := setf (g_excl g) b false;
-     g_free := setf (g_free g) b (v =? 1)%N; g_fen := false |}.
+     g_free := setf (g_free g) b (v =? 1)%N; g_fen := false; g_bor := g_bor g |}.
 Definition g_load (g : ghost) (b : bufid) (v : N) : ghost :=
-  {| g_refs := g_refs g; g_excl := setf (g_excl g) b (g_excl g b || (v =? 1)%N); g_free := g_free g; g_fen := g_fen g |}.
+  {| g_refs := g_refs g; g_excl := setf (g_excl g) b (g_excl g b || (v =? 1)%N); g_free := g_free g; g_fen := g_fen g; g_bor := g_bor g |}.
 Definition g_fence (g : ghost) (o : ord) : ghost :=
-  {| g_refs := g_refs g; g_excl := g_excl g; g_free := g_free g; g_fen := g_fen g || acq o |}.
+  {| g_refs := g_refs g; g_excl := g_excl g; g_free := g_free g; g_fen := g_fen g || acq o; g_bor := g_bor g |}.
 Definition g_give (g : ghost) (k : nat) : ghost :=
-  {| g_refs := setf (g_refs g) b0 (g_refs g b0 - k)%nat; g_excl := setf (g_excl g) b0 false; g_free := g_free g; g_fen := g_fen g |}.
+  {| g_refs := setf (g_refs g) b0 (g_refs g b0 - k)%nat; g_excl := setf (g_excl g) b0 false; g_free := g_free g; g_fen := g_fen g; g_bor := g_bor g |}.
 Definition g_child (k : nat) : ghost :=
-  {| g_refs := fun b => if Nat.eqb b b0 then k else 0%nat; g_excl := fun _ => false; g_free := fun _ => false; g_fen := false |}.
+  {| g_refs := fun b => if Nat.eqb b b0 then k else 0%nat; g_excl := fun _ => false; g_free := fun _ => false; g_fen := false; g_bor := fun _ => false |}.
 
-(* a read of b0: by a reference holder, or by the freeing thread after its fence *)
-Definition read_step (s : st) (t : nat) (s' : st) : Prop := step s t ARead = Ok s' \/ step s t AReadM = Ok s'.
+(* the ghost of a scoped thread that borrows the handle, and of its lender after the loan *)
+Definition g_childb : ghost :=
+  {| g_refs := fun _ => 0%nat; g_excl := fun _ => false; g_free := fun _ => false; g_fen := false;
+     g_bor := fun b => Nat.eqb b b0 |}.
+Definition g_init (t : nat) : ghost := if bof t then g_childb else g_child (kof t).
+Definition g_lendout (g : ghost) : ghost :=
+  {| g_refs := g_refs g; g_excl := setf (g_excl g) b0 false; g_free := g_free g; g_fen := g_fen g; g_bor := g_bor g |}.
+
+(* a read of b0: by a reference holder, by the freeing thread after its fence, or through a borrowed handle *)
+Definition read_step (s : st) (t : nat) (s' : st) : Prop :=
+  step s t ARead = Ok s' \/ step s t AReadM = Ok s' \/ step s t AReadB = Ok s'.
 
 (* ---------- one event of thread t ---------- *)
 Inductive estep (t : nat) : st -> cmd unit -> ghost -> st -> cmd unit -> ghost -> Prop :=
@@ -60,6 +70,8 @@ Inductive estep (t : nat) : st -> cmd unit -> ghost -> st -> cmd unit -> ghost -
 | S_hdrcap s k g v s' : read_step s t s' -> estep t s (HdrCap b0 k) g s' (k v) g
 | S_inc_o s b o k g v : b <> b0 -> estep t s (Rmw b true o k) g s (k v) (g_inc g b)
 | S_inc s o k g s' : step s t AClone = Ok s' ->
+    estep t s (Rmw b0 true o k) g s' (k (N.of_nat (val (hdm s)))) (g_inc g b0)
+| S_inc_b s o k g s' : step s t ACloneB = Ok s' ->
     estep t s (Rmw b0 true o k) g s' (k (N.of_nat (val (hdm s)))) (g_inc g b0)
 | S_dec_o s b o k g v : b <> b0 -> estep t s (Rmw b false o k) g s (k v) (g_dec g b v)
 | S_dec s o k g s' : step s t ARelease = Ok s' ->
@@ -78,43 +90,63 @@ Inductive estep (t : nat) : st -> cmd unit -> ghost -> st -> cmd unit -> ghost -
 | S_move s x y n k g s' : step s t AWrite = Ok s' -> estep t s (Move (PHeap b0) x y n k) g s' k g.
 
 (* ---------- thread programs and configurations ---------- *)
-Inductive pitem := POp (c : cmd unit) | PSpawn (child k : nat) | PJoin (child : nat).
-Record tcfg := { cur : cmd unit; rest : list pitem; gh : ghost }.
+Inductive pitem := POp (c : cmd unit) | PSpawn (child k : nat) | PJoin (child : nat)
+                 | PLend (child : nat) | PJoinB (child : nat).   (* thread::scope: lend &handle to a scoped thread, join it *)
+Record tcfg := { cur : cmd unit; rest : list pitem; gh : ghost; lt : list nat (* the scoped threads borrowing from this one *) }.
 Record cfg := { ms : st; tc : list tcfg }.
-Definition dtc : tcfg := {| cur := Ret tt; rest := []; gh := g_child 0 |}.
+Definition dtc : tcfg := {| cur := Ret tt; rest := []; gh := g_child 0; lt := [] |}.
 Definition gettc (cf : cfg) (t : nat) : tcfg := nth t (tc cf) dtc.
+
+Definition finished (x : tcfg) : Prop := cur x = Ret tt /\ rest x = [].
 
 Inductive cstep : cfg -> cfg -> Prop :=
 | C_event cf t s' c' g' :
     t < length (tc cf) -> started (getth (ms cf) t) = true ->
     estep t (ms cf) (cur (gettc cf t)) (gh (gettc cf t)) s' c' g' ->
-    cstep cf {| ms := s'; tc := upd (tc cf) t {| cur := c'; rest := rest (gettc cf t); gh := g' |} |}
+    cstep cf {| ms := s'; tc := upd (tc cf) t {| cur := c'; rest := rest (gettc cf t); gh := g'; lt := lt (gettc cf t) |} |}
 | C_next cf t c r :
     t < length (tc cf) -> started (getth (ms cf) t) = true ->
     cur (gettc cf t) = Ret tt -> rest (gettc cf t) = POp c :: r ->
-    cstep cf {| ms := ms cf; tc := upd (tc cf) t {| cur := c; rest := r; gh := gh (gettc cf t) |} |}
+    cstep cf {| ms := ms cf; tc := upd (tc cf) t {| cur := c; rest := r; gh := gh (gettc cf t); lt := lt (gettc cf t) |} |}
 | C_spawn cf t ch k r s' :
     t < length (tc cf) -> started (getth (ms cf) t) = true ->
     cur (gettc cf t) = Ret tt -> rest (gettc cf t) = PSpawn ch k :: r ->
     step (ms cf) t (ASpawn ch k) = Ok s' ->
-    cstep cf {| ms := s'; tc := upd (tc cf) t {| cur := Ret tt; rest := r; gh := g_give (gh (gettc cf t)) k |} |}
+    cstep cf {| ms := s'; tc := upd (tc cf) t {| cur := Ret tt; rest := r; gh := g_give (gh (gettc cf t)) k; lt := lt (gettc cf t) |} |}
 | C_join cf t ch r s' :
     t < length (tc cf) -> started (getth (ms cf) t) = true ->
     cur (gettc cf t) = Ret tt -> rest (gettc cf t) = PJoin ch :: r ->
     step (ms cf) t (AJoin ch) = Ok s' ->
-    cstep cf {| ms := s'; tc := upd (tc cf) t {| cur := Ret tt; rest := r; gh := gh (gettc cf t) |} |}.
+    cstep cf {| ms := s'; tc := upd (tc cf) t {| cur := Ret tt; rest := r; gh := gh (gettc cf t); lt := lt (gettc cf t) |} |}
+| C_lend cf t ch r s' :
+    t < length (tc cf) -> started (getth (ms cf) t) = true ->
+    cur (gettc cf t) = Ret tt -> rest (gettc cf t) = PLend ch :: r ->
+    step (ms cf) t (ALend ch) = Ok s' ->
+    cstep cf {| ms := s'; tc := upd (tc cf) t {| cur := Ret tt; rest := r; gh := g_lendout (gh (gettc cf t));
+                                                lt := ch :: lt (gettc cf t) |} |}
+| C_joinb cf t ch r s' :
+    t < length (tc cf) -> started (getth (ms cf) t) = true ->
+    cur (gettc cf t) = Ret tt -> rest (gettc cf t) = PJoinB ch :: r ->
+    finished (gettc cf ch) ->                  (* the scope waits for the scoped thread to run to completion *)
+    step (ms cf) t (AJoinB ch) = Ok s' ->
+    cstep cf {| ms := s'; tc := upd (tc cf) t {| cur := Ret tt; rest := r; gh := gh (gettc cf t);
+                                                lt := List.remove Nat.eq_dec ch (lt (gettc cf t)) |} |}.
 
 Inductive csteps : cfg -> cfg -> Prop :=
 | cs_refl cf : csteps cf cf
 | cs_step cf cf1 cf2 : cstep cf cf1 -> csteps cf1 cf2 -> csteps cf cf2.
 
 (* ---------- typing ---------- *)
-Fixpoint prog_ok (ps : list pitem) (g : ghost) : Prop :=
+(* [lent]: the scoped threads currently borrowing from this thread; while there are any, the thread only lends again,
+   joins, and waits (thread::scope blocks its caller until the scoped threads are done) *)
+Fixpoint prog_ok (lent : list nat) (ps : list pitem) (g : ghost) : Prop :=
   match ps with
-  | [] => g_refs g b0 = 0%nat /\ g_free g b0 = false      (* a thread ends holding nothing and owing nothing *)
-  | POp c :: r => okc c g (fun _ g' => prog_ok r g')
-  | PSpawn ch k :: r => (k <= g_refs g b0)%nat /\ kof ch = k /\ prog_ok r (g_give g k)
-  | PJoin ch :: r => prog_ok r g
+  | [] => lent = [] /\ g_refs g b0 = 0%nat /\ g_free g b0 = false      (* a thread ends holding nothing and owing nothing *)
+  | POp c :: r => lent = [] /\ okc c g (fun _ g' => prog_ok [] r g')
+  | PSpawn ch k :: r => lent = [] /\ (k <= g_refs g b0)%nat /\ kof ch = k /\ bof ch = false /\ prog_ok [] r (g_give g k)
+  | PJoin ch :: r => prog_ok lent r g
+  | PLend ch :: r => (0 < g_refs g b0)%nat /\ g_bor g b0 = false /\ bof ch = true /\ prog_ok (ch :: lent) r (g_lendout g)
+  | PJoinB ch :: r => In ch lent /\ prog_ok (List.remove Nat.eq_dec ch lent) r g
   end.
 
 Definition agree (x : th) (g : ghost) : Prop :=
@@ -125,12 +157,14 @@ Record WT (cf : cfg) : Prop := {
   wt_len : length (tc cf) = length (ths (ms cf));
   wt_started : forall t, t < length (tc cf) -> started (getth (ms cf) t) = true ->
       agree (getth (ms cf) t) (gh (gettc cf t))
-      /\ okc (cur (gettc cf t)) (gh (gettc cf t)) (fun _ g' => prog_ok (rest (gettc cf t)) g');
+      /\ okc (cur (gettc cf t)) (gh (gettc cf t)) (fun _ g' => prog_ok (lt (gettc cf t)) (rest (gettc cf t)) g')
+      /\ (lt (gettc cf t) <> [] -> cur (gettc cf t) = Ret tt)
+      /\ (g_bor (gh (gettc cf t)) b0 = true -> lend (getth (ms cf) t) <> 0 \/ finished (gettc cf t));
   wt_unstarted : forall t, t < length (tc cf) -> started (getth (ms cf) t) = false ->
-      cur (gettc cf t) = Ret tt /\ gh (gettc cf t) = g_child (kof t) /\ prog_ok (rest (gettc cf t)) (g_child (kof t));
-  (* the programs of this semantics move handles; nobody lends one by reference (Mach.ALend is covered by the machine
-     theorems, not by a typing rule) *)
-  wt_noloan : forall u, lend (getth (ms cf) u) = 0;
+      cur (gettc cf t) = Ret tt /\ gh (gettc cf t) = g_init t /\ lt (gettc cf t) = []
+      /\ prog_ok [] (rest (gettc cf t)) (g_init t) /\ lend (getth (ms cf) t) = 0;
+  (* who borrows from whom: exactly the scoped threads a thread has lent to and not yet joined *)
+  wt_loans : forall u t, lend (getth (ms cf) u) = S t <-> (t < length (tc cf) /\ In u (lt (gettc cf t)));
 }.
 
 (* ---------- helpers ---------- *)
@@ -178,9 +212,10 @@ Qed.
 Lemma read_post t s s' c' g Q :
   Inv s -> read_step s t s' -> okc c' g Q -> agree (getth s t) g -> estep_post t s s' c' g Q.
 Proof.
-  intros I [Hs|Hs] Hok Hag.
+  intros I [Hs|[Hs|Hs]] Hok Hag.
   - eapply post_mach; [exact I|exact Hs|reflexivity|exact Hok|]. intros (_ & Hl). eapply agree_same_local; eauto.
   - eapply post_mach; [exact I|exact Hs|reflexivity|exact Hok|]. intros (_ & Hl). eapply agree_same_local; eauto.
+  - eapply post_mach; [exact I|exact Hs|reflexivity|exact Hok|]. intros Hl. eapply agree_same_local; eauto.
 Qed.
 
 Lemma write_post t s s' c' g Q :
@@ -223,6 +258,10 @@ Proof.
     intros (_ & R1 & R2 & R3). destruct Hag as (A1 & A2 & A3 & A4).
     unfold agree, g_inc; cbn [g_refs g_excl g_free g_fen]. rewrite !setf_eq. rewrite R1, R2, R3, A1.
     split; [reflexivity|]. split; [reflexivity|]. split; [exact A3|discriminate].
+  - (* inc b0 through a borrowed handle *) destruct Hok as (_ & K2). eapply post_mach; [exact I|eassumption|reflexivity|apply K2|].
+    intros (R1 & R2 & R3). destruct Hag as (A1 & A2 & A3 & A4).
+    unfold agree, g_inc; cbn [g_refs g_excl g_free g_fen]. rewrite !setf_eq. rewrite R1, R2, R3, A1.
+    split; [reflexivity|]. split; [reflexivity|]. split; [exact A3|discriminate].
   - (* dec, other *) destruct Hok as (_ & _ & _ & K2). apply post_silent; [exact I|exact Hst|apply K2|].
     eapply agree_other; [exact Hag| | | |]; unfold g_dec; cbn [g_refs g_excl g_free g_fen]; rewrite ?setf_ne by assumption; auto. discriminate.
   - (* dec b0 *) destruct Hok as (_ & _ & _ & K2). eapply post_mach; [exact I|eassumption|reflexivity|apply K2|].
@@ -255,6 +294,10 @@ Proof.
   - destruct Hok as (_ & K2). eapply write_post; [exact I|eassumption|exact K2|exact Hag].
 Qed.
 
+(* no event changes who borrows *)
+Lemma estep_bor t s c g s' c' g' : estep t s c g s' c' g' -> g_bor g' = g_bor g.
+Proof. intros H. destruct H; reflexivity. Qed.
+
 (* ---------- configurations ---------- *)
 Lemma gettc_upd_eq cf t x s' : t < length (tc cf) -> gettc {| ms := s'; tc := upd (tc cf) t x |} t = x.
 Proof. intros H. unfold gettc. cbn [tc]. apply nth_upd_eq. exact H. Qed.
@@ -264,65 +307,209 @@ Proof. intros H. unfold gettc. cbn [tc]. apply nth_upd_ne. exact H. Qed.
 Lemma WT_update cf s' t x :
   WT cf -> Inv s' -> length (ths s') = length (ths (ms cf)) -> t < length (tc cf) ->
   started (getth s' t) = true -> agree (getth s' t) (gh x) ->
-  okc (cur x) (gh x) (fun _ g' => prog_ok (rest x) g') ->
-  (forall u, u <> t -> getth s' u = getth (ms cf) u
-                      \/ (started (getth (ms cf) u) = false /\ started (getth s' u) = true
-                          /\ agree (getth s' u) (g_child (kof u)))) ->
-  (forall u, lend (getth s' u) = 0) ->
+  okc (cur x) (gh x) (fun _ g' => prog_ok (lt x) (rest x) g') ->
+  (lt x <> [] -> cur x = Ret tt) ->
+  (g_bor (gh x) b0 = true -> lend (getth s' t) <> 0 \/ finished x) ->
+  (forall u, u <> t ->
+     (* untouched *)
+     getth s' u = getth (ms cf) u
+     (* started by this step *)
+     \/ (started (getth (ms cf) u) = false /\ started (getth s' u) = true /\ agree (getth s' u) (g_init u)
+         /\ (g_bor (g_init u) b0 = true -> lend (getth s' u) <> 0))
+     (* a scoped thread that has run to completion and is joined: only its lend field is reset *)
+     \/ (started (getth (ms cf) u) = true /\ started (getth s' u) = true /\ finished (gettc cf u)
+         /\ (forall g, agree (getth (ms cf) u) g -> agree (getth s' u) g))) ->
+  (forall u, started (getth s' u) = false -> lend (getth s' u) = 0) ->
+  (forall u v, lend (getth s' u) = S v <->
+               (v < length (tc cf) /\ In u (lt (gettc {| ms := s'; tc := upd (tc cf) t x |} v)))) ->
   WT {| ms := s'; tc := upd (tc cf) t x |}.
 Proof.
-  intros [W1 W2 W3 W4 W5] I' Hlen Ht Hst Hag Hok Hoth Hnl. split; cbn [ms].
+  intros [W1 W2 W3 W4 W5] I' Hlen Ht Hst Hag Hok Hlt Hbor Hoth Hun Hloans. split; cbn [ms].
   - exact I'.
   - cbn [tc]. rewrite upd_length. congruence.
   - intros u Hu Hsu. cbn [tc] in Hu. rewrite upd_length in Hu.
     destruct (Nat.eq_dec u t) as [->|Hne].
-    + rewrite gettc_upd_eq by exact Ht. split; [exact Hag|exact Hok].
-    + rewrite gettc_upd_ne by exact Hne. destruct (Hoth u Hne) as [E|(E1 & E2 & E3)].
+    + rewrite gettc_upd_eq by exact Ht. auto.
+    + rewrite gettc_upd_ne by exact Hne. destruct (Hoth u Hne) as [E|[(E1 & E2 & E3 & E4)|(E1 & E2 & E3 & E4)]].
       * rewrite E in *. apply W3; assumption.
-      * destruct (W4 u Hu E1) as (C1 & C2 & C3). rewrite C1, C2. split; [exact E3|]. cbn [okc]. exact C3.
+      * destruct (W4 u Hu E1) as (C1 & C2 & C3 & C4 & C5). rewrite C1, C2, C3. split; [exact E3|]. split; [cbn [okc]; exact C4|].
+        split; [intros Hx; contradiction|]. intros Hb. left. apply E4. exact Hb.
+      * destruct (W3 u Hu E1) as (A & B & C & D). split; [apply E4; exact A|]. split; [exact B|]. split; [exact C|].
+        intros _. right. exact E3.
   - intros u Hu Hsu. cbn [tc] in Hu. rewrite upd_length in Hu.
     destruct (Nat.eq_dec u t) as [->|Hne]; [congruence|].
-    rewrite gettc_upd_ne by exact Hne. destruct (Hoth u Hne) as [E|(E1 & E2 & E3)]; [|congruence].
-    rewrite E in Hsu. apply W4; assumption.
-  - exact Hnl.
+    rewrite gettc_upd_ne by exact Hne. destruct (Hoth u Hne) as [E|[(E1 & E2 & _)|(E1 & E2 & _)]]; [|congruence|congruence].
+    rewrite E in Hsu. destruct (W4 u Hu Hsu) as (C1 & C2 & C3 & C4 & C5). split; [exact C1|]. split; [exact C2|].
+    split; [exact C3|]. split; [exact C4|]. apply Hun. rewrite E. exact Hsu.
+  - intros u v. cbn [tc]. rewrite upd_length. apply Hloans.
+Qed.
+
+(* the loans are unchanged by a step that changes neither a lend field nor a lent list *)
+Lemma loans_same cf s' t x :
+  WT cf -> t < length (tc cf) -> (forall u, lend (getth s' u) = lend (getth (ms cf) u)) -> lt x = lt (gettc cf t) ->
+  forall u v, lend (getth s' u) = S v <-> (v < length (tc cf) /\ In u (lt (gettc {| ms := s'; tc := upd (tc cf) t x |} v))).
+Proof.
+  intros W Ht Hl Hx u v. rewrite Hl. rewrite (wt_loans cf W u v).
+  destruct (Nat.eq_dec v t) as [->|Hne]; [rewrite gettc_upd_eq by exact Ht; rewrite Hx|rewrite gettc_upd_ne by exact Hne]; reflexivity.
+Qed.
+Lemma unstarted_same cf s' :
+  WT cf -> length (ths s') = length (ths (ms cf)) ->
+  (forall u, started (getth s' u) = false -> started (getth (ms cf) u) = false /\ lend (getth s' u) = lend (getth (ms cf) u)) ->
+  forall u, started (getth s' u) = false -> lend (getth s' u) = 0.
+Proof.
+  intros W Hlen H u Hu. destruct (H u Hu) as (H1 & H2). rewrite H2.
+  destruct (Nat.lt_ge_cases u (length (tc cf))) as [Hlt|Hge].
+  - destruct (wt_unstarted cf W u Hlt H1) as (_ & _ & _ & _ & E). exact E.
+  - unfold getth. rewrite nth_overflow by (rewrite <- (wt_len cf W); exact Hge). reflexivity.
 Qed.
 
 Theorem typed_step cf cf' : WT cf -> cstep cf cf' -> WT cf'.
 Proof.
-  intros W Hs. pose proof W as [W1 W2 W3 W4 W5]. destruct Hs as [cf t s' c' g' Ht Hst He|cf t c r Ht Hst Hc Hr|cf t ch k r s' Ht Hst Hc Hr Hm|cf t ch r s' Ht Hst Hc Hr Hm].
+  intros W Hs. pose proof W as [W1 W2 W3 W4 W5].
+  destruct Hs as [cf t s' c' g' Ht Hst He|cf t c r Ht Hst Hc Hr|cf t ch k r s' Ht Hst Hc Hr Hm|cf t ch r s' Ht Hst Hc Hr Hm
+                 |cf t ch r s' Ht Hst Hc Hr Hm|cf t ch r s' Ht Hst Hc Hr Hfin Hm].
   - (* an event *)
-    destruct (W3 t Ht Hst) as (Hag & Hok).
+    destruct (W3 t Ht Hst) as (Hag & Hok & Hlt & Hbor).
     destruct (estep_sound t _ _ _ _ _ _ _ W1 Hst Hag Hok He) as (I' & Hok' & Hag' & Hlen & Hst' & Hoth & Hld).
-    apply WT_update; auto. intros u. rewrite Hld. apply W5.
+    assert (Hnil : lt (gettc cf t) = []).
+    { destruct (lt (gettc cf t)) eqn:E; [reflexivity|]. exfalso. assert (Hc : cur (gettc cf t) = Ret tt) by (apply Hlt; discriminate).
+      rewrite Hc in He. inversion He. }
+    apply WT_update; [exact W|exact I'|exact Hlen|exact Ht|exact Hst'|exact Hag'|cbn [cur gh lt rest]; exact Hok'| | | | |].
+    + cbn [lt]. rewrite Hnil. intros Hx. contradiction.
+    + cbn [gh]. rewrite (estep_bor _ _ _ _ _ _ _ He). rewrite Hld. intros Hb. destruct (Hbor Hb) as [Hl|(Hf & _)]; [left; exact Hl|].
+      rewrite Hf in He. inversion He.
+    + intros u Hu. left. apply Hoth. exact Hu.
+    + eapply unstarted_same; [exact W|exact Hlen|]. intros u Hu. rewrite Hld. split; [|reflexivity].
+      destruct (Nat.eq_dec u t) as [->|Hne]; [congruence|]. rewrite Hoth in Hu by exact Hne. exact Hu.
+    + apply loans_same; [exact W|exact Ht|exact Hld|reflexivity].
   - (* next operation *)
-    destruct (W3 t Ht Hst) as (Hag & Hok). rewrite Hc, Hr in Hok. cbn [okc prog_ok] in Hok.
-    apply WT_update; auto.
+    destruct (W3 t Ht Hst) as (Hag & Hok & Hlt & Hbor). rewrite Hc, Hr in Hok. cbn [okc prog_ok] in Hok. destruct Hok as (Hnil & Hok).
+    apply WT_update; [exact W|exact W1|reflexivity|exact Ht|exact Hst|exact Hag| | | | | |].
+    + cbn [cur gh lt rest]. rewrite Hnil. exact Hok.
+    + cbn [lt]. rewrite Hnil. intros Hx. contradiction.
+    + cbn [gh]. intros Hb. destruct (Hbor Hb) as [Hl|(_ & Hf)]; [left; exact Hl|]. rewrite Hr in Hf. discriminate.
+    + intros u Hu. left. reflexivity.
+    + eapply unstarted_same; [exact W|reflexivity|]. auto.
+    + apply loans_same; [exact W|exact Ht|reflexivity|reflexivity].
   - (* spawn *)
-    destruct (W3 t Ht Hst) as (Hag & Hok). rewrite Hc, Hr in Hok. cbn [okc prog_ok] in Hok. destruct Hok as (Hk & Hkof & Hrest).
+    destruct (W3 t Ht Hst) as (Hag & Hok & Hlt & Hbor). rewrite Hc, Hr in Hok. cbn [okc prog_ok] in Hok.
+    destruct Hok as (Hnil & Hk & Hkof & Hbof & Hrest).
     destruct (step_spec _ _ _ _ Hm) as (_ & _ & Hst' & Hlen & Hoth & Hlendt & Hspec). cbn [act_spec] in Hspec.
     destruct Hspec as (Hct & _ & Hsc & Hcl & R1 & R2 & R3 & R4 & R5 & C1 & C2 & C3 & C4 & C5 & C6).
-    assert (Hnl : forall u, lend (getth s' u) = 0).
-    { intros u. destruct (Nat.eq_dec u t) as [->|Hut]; [rewrite Hlendt; apply W5|].
-      destruct (Nat.eq_dec u ch) as [->|Huc]; [exact C6|]. rewrite Hoth; [apply W5|exact Hut|cbn [second]; congruence]. }
-    apply WT_update; auto.
+    assert (Hlch : lend (getth (ms cf) ch) = 0).
+    { assert (Hch : ch < length (tc cf)) by congruence. destruct (W4 ch Hch Hsc) as (_ & _ & _ & _ & E). exact E. }
+    assert (Hld : forall u, lend (getth s' u) = lend (getth (ms cf) u)).
+    { intros u. destruct (Nat.eq_dec u t) as [->|Hut]; [exact Hlendt|].
+      destruct (Nat.eq_dec u ch) as [->|Huc]; [congruence|]. rewrite Hoth; [reflexivity|exact Hut|cbn [second]; congruence]. }
+    apply WT_update; [exact W| |exact Hlen|exact Ht|exact Hst'| | | | | | |].
     + eapply pres; eauto.
     + cbn [gh]. destruct Hag as (A1 & A2 & A3 & A4). unfold agree, g_give; cbn [g_refs g_excl g_free g_fen].
       rewrite !setf_eq. rewrite R1, R2, R3, R4, A1. split; [reflexivity|]. split; [reflexivity|]. split; [exact A3|].
       intros Hf. eapply cle_trans; [apply A4; exact Hf|exact R5].
+    + cbn [cur gh lt rest okc]. rewrite Hnil. exact Hrest.
+    + cbn [lt]. rewrite Hnil. intros Hx. contradiction.
+    + cbn [gh]. unfold g_give. cbn [g_bor]. rewrite Hlendt. intros Hb. destruct (Hbor Hb) as [Hl|(_ & Hf)]; [left; exact Hl|].
+      rewrite Hr in Hf. discriminate.
     + intros u Hu. destruct (Nat.eq_dec u ch) as [->|Hne].
-      * right. split; [exact Hsc|]. split; [exact C5|]. unfold agree, g_child; cbn [g_refs g_excl g_free g_fen].
-        rewrite Nat.eqb_refl. rewrite C1, C2, C3, Hkof. repeat split; auto. discriminate.
+      * right. left. split; [exact Hsc|]. split; [exact C5|]. unfold g_init. rewrite Hbof. split.
+        -- unfold agree, g_child; cbn [g_refs g_excl g_free g_fen]. rewrite Nat.eqb_refl. rewrite C1, C2, C3, Hkof. repeat split; auto. discriminate.
+        -- unfold g_child. cbn [g_bor]. discriminate.
       * left. apply Hoth; [exact Hu|]. cbn [second]. intros [= E]. apply Hne. symmetry. exact E.
+    + eapply unstarted_same; [exact W|exact Hlen|]. intros u Hu. split; [|apply Hld].
+      destruct (Nat.eq_dec u t) as [->|Hut]; [congruence|]. destruct (Nat.eq_dec u ch) as [->|Huc]; [congruence|].
+      rewrite Hoth in Hu; [exact Hu|exact Hut|cbn [second]; congruence].
+    + apply loans_same; [exact W|exact Ht|exact Hld|reflexivity].
   - (* join *)
-    destruct (W3 t Ht Hst) as (Hag & Hok). rewrite Hc, Hr in Hok. cbn [okc prog_ok] in Hok.
+    destruct (W3 t Ht Hst) as (Hag & Hok & Hlt & Hbor). rewrite Hc, Hr in Hok. cbn [okc prog_ok] in Hok.
     destruct (step_spec _ _ _ _ Hm) as (_ & _ & Hst' & Hlen & Hoth & Hlendt & Hspec). cbn [act_spec] in Hspec.
-    assert (Hnl : forall u, lend (getth s' u) = 0).
-    { intros u. destruct (Nat.eq_dec u t) as [->|Hut]; [rewrite Hlendt; apply W5|].
-      rewrite Hoth; [apply W5|exact Hut|cbn [second]; discriminate]. }
-    apply WT_update; auto.
+    assert (Hld : forall u, lend (getth s' u) = lend (getth (ms cf) u)).
+    { intros u. destruct (Nat.eq_dec u t) as [->|Hut]; [exact Hlendt|]. rewrite Hoth; [reflexivity|exact Hut|cbn [second]; discriminate]. }
+    apply WT_update; [exact W| |exact Hlen|exact Ht|exact Hst'| | | | | | |].
     + eapply pres; eauto.
     + cbn [gh]. eapply agree_same_local; eauto.
+    + cbn [cur gh lt rest okc]. exact Hok.
+    + cbn [lt cur]. intros _. reflexivity.
+    + cbn [gh]. rewrite Hlendt. intros Hb. destruct (Hbor Hb) as [Hl|(_ & Hf)]; [left; exact Hl|]. rewrite Hr in Hf. discriminate.
     + intros u Hu. left. apply Hoth; [exact Hu|]. cbn [second]. discriminate.
+    + eapply unstarted_same; [exact W|exact Hlen|]. intros u Hu. split; [|apply Hld].
+      destruct (Nat.eq_dec u t) as [->|Hut]; [congruence|]. rewrite Hoth in Hu; [exact Hu|exact Hut|cbn [second]; discriminate].
+    + apply loans_same; [exact W|exact Ht|exact Hld|reflexivity].
+  - (* lend *)
+    destruct (W3 t Ht Hst) as (Hag & Hok & Hlt & Hbor). rewrite Hc, Hr in Hok. cbn [okc prog_ok] in Hok.
+    destruct Hok as (Hrf & Hnb & Hbof & Hrest).
+    destruct (step_spec _ _ _ _ Hm) as (_ & _ & Hst' & Hlen & Hoth & Hlendt & Hspec). cbn [act_spec] in Hspec.
+    destruct (lend_spec _ _ _ _ Hm) as (Hct & Hcl & Hsc & L1 & L2 & L3 & L4 & L5).
+    destruct Hspec as (R1 & R2 & R3 & R4 & R5).
+    apply WT_update; [exact W| |exact Hlen|exact Ht|exact Hst'| | | | | | |].
+    + eapply pres; eauto.
+    + cbn [gh]. destruct Hag as (A1 & A2 & A3 & A4). unfold agree, g_lendout; cbn [g_refs g_excl g_free g_fen].
+      rewrite !setf_eq. rewrite R1, R2, R3, R4. split; [exact A1|]. split; [reflexivity|]. split; [exact A3|].
+      intros Hf. eapply cle_trans; [apply A4; exact Hf|exact R5].
+    + cbn [cur gh lt rest okc]. exact Hrest.
+    + cbn [cur]. intros _. reflexivity.
+    + cbn [gh]. unfold g_lendout. cbn [g_bor]. rewrite Hnb. discriminate.
+    + intros u Hu. destruct (Nat.eq_dec u ch) as [->|Hne].
+      * right. left. split; [exact Hsc|]. split; [exact L1|]. unfold g_init. rewrite Hbof. split.
+        -- unfold agree, g_childb; cbn [g_refs g_excl g_free g_fen]. rewrite L2, L3, L4. repeat split; auto. discriminate.
+        -- intros _. rewrite L5. discriminate.
+      * left. apply Hoth; [exact Hu|]. cbn [second]. intros [= E]. apply Hne. symmetry. exact E.
+    + intros u Hu. destruct (Nat.eq_dec u t) as [->|Hut]; [congruence|]. destruct (Nat.eq_dec u ch) as [->|Huc]; [congruence|].
+      assert (E : getth s' u = getth (ms cf) u) by (apply Hoth; [exact Hut|cbn [second]; congruence]).
+      rewrite E in *. destruct (Nat.lt_ge_cases u (length (tc cf))) as [Hlt'|Hge].
+      * destruct (W4 u Hlt' Hu) as (_ & _ & _ & _ & E0). exact E0.
+      * unfold getth. rewrite nth_overflow by (rewrite <- W2; exact Hge). reflexivity.
+    + (* loans: ch now borrows from t *)
+      assert (Hlch : lend (getth (ms cf) ch) = 0).
+      { assert (Hch : ch < length (tc cf)) by congruence. destruct (W4 ch Hch Hsc) as (_ & _ & _ & _ & E). exact E. }
+      intros u v. destruct (Nat.eq_dec u ch) as [->|Huc].
+      * rewrite L5. split.
+        -- intros [= <-]. split; [exact Ht|]. rewrite gettc_upd_eq by exact Ht. cbn [lt]. left. reflexivity.
+        -- intros (Hv & Hin). destruct (Nat.eq_dec v t) as [->|Hvt]; [reflexivity|].
+           rewrite gettc_upd_ne in Hin by exact Hvt. pose proof (proj2 (W5 ch v) (conj Hv Hin)) as Ebad. congruence.
+      * assert (E : lend (getth s' u) = lend (getth (ms cf) u)).
+        { destruct (Nat.eq_dec u t) as [->|Hut]; [exact Hlendt|]. rewrite Hoth; [reflexivity|exact Hut|cbn [second]; congruence]. }
+        rewrite E, (W5 u v). destruct (Nat.eq_dec v t) as [->|Hvt].
+        -- rewrite gettc_upd_eq by exact Ht. cbn [lt]. split; intros (H1 & H2); (split; [exact H1|]).
+           ++ right. exact H2.
+           ++ destruct H2 as [H2|H2]; [congruence|exact H2].
+        -- rewrite gettc_upd_ne by exact Hvt. reflexivity.
+  - (* the scope ends for one scoped thread *)
+    destruct (W3 t Ht Hst) as (Hag & Hok & Hlt & Hbor). rewrite Hc, Hr in Hok. cbn [okc prog_ok] in Hok.
+    destruct Hok as (Hin & Hrest).
+    destruct (step_spec _ _ _ _ Hm) as (_ & _ & Hst' & Hlen & Hoth & Hlendt & Hspec). cbn [act_spec] in Hspec.
+    destruct (joinb_spec _ _ _ _ Hm) as (Hct & Hcl & B1 & B2 & B3 & B4 & B5 & B6).
+    assert (Hchl : lend (getth (ms cf) ch) = S t) by (apply (proj2 (W5 ch t)); split; [exact Ht|exact Hin]).
+    assert (Hsch : started (getth (ms cf) ch) = true).
+    { destruct (started (getth (ms cf) ch)) eqn:E; [reflexivity|]. assert (Hch : ch < length (tc cf)) by congruence.
+      destruct (W4 ch Hch E) as (_ & _ & _ & _ & E0). congruence. }
+    apply WT_update; [exact W| |exact Hlen|exact Ht|exact Hst'| | | | | | |].
+    + eapply pres; eauto.
+    + cbn [gh]. eapply agree_same_local; eauto.
+    + cbn [cur gh lt rest okc]. exact Hrest.
+    + cbn [cur]. intros _. reflexivity.
+    + cbn [gh]. rewrite Hlendt. intros Hb. destruct (Hbor Hb) as [Hl|(_ & Hf)]; [left; exact Hl|]. rewrite Hr in Hf. discriminate.
+    + intros u Hu. destruct (Nat.eq_dec u ch) as [->|Hne].
+      * right. right. split; [exact Hsch|]. split; [rewrite B6; exact Hsch|]. split; [exact Hfin|].
+        intros g (A1 & A2 & A3 & A4). unfold agree. rewrite B1, B2, B3, B4, B5. auto.
+      * left. apply Hoth; [exact Hu|]. cbn [second]. intros [= E]. apply Hne. symmetry. exact E.
+    + intros u Hu. destruct (Nat.eq_dec u t) as [->|Hut]; [congruence|]. destruct (Nat.eq_dec u ch) as [->|Huc]; [congruence|].
+      assert (E : getth s' u = getth (ms cf) u) by (apply Hoth; [exact Hut|cbn [second]; congruence]).
+      rewrite E in *. destruct (Nat.lt_ge_cases u (length (tc cf))) as [Hlt'|Hge].
+      * destruct (W4 u Hlt' Hu) as (_ & _ & _ & _ & E0). exact E0.
+      * unfold getth. rewrite nth_overflow by (rewrite <- W2; exact Hge). reflexivity.
+    + (* loans: ch no longer borrows *)
+      intros u v. destruct (Nat.eq_dec u ch) as [->|Huc].
+      * rewrite (joinb_lend _ _ _ _ Hm). split; [discriminate|]. intros (Hv & Hin').
+        destruct (Nat.eq_dec v t) as [->|Hvt].
+        -- rewrite gettc_upd_eq in Hin' by exact Ht. cbn [lt] in Hin'. apply remove_In in Hin'. contradiction.
+        -- rewrite gettc_upd_ne in Hin' by exact Hvt. pose proof (proj2 (W5 ch v) (conj Hv Hin')) as Ebad. congruence.
+      * assert (E : lend (getth s' u) = lend (getth (ms cf) u)).
+        { destruct (Nat.eq_dec u t) as [->|Hut]; [exact Hlendt|]. rewrite Hoth; [reflexivity|exact Hut|cbn [second]; congruence]. }
+        rewrite E, (W5 u v). destruct (Nat.eq_dec v t) as [->|Hvt].
+        -- rewrite gettc_upd_eq by exact Ht. cbn [lt]. split; intros (H1 & H2); (split; [exact H1|]).
+           ++ apply in_in_remove; [exact Huc|exact H2].
+           ++ apply in_remove in H2. exact (proj1 H2).
+        -- rewrite gettc_upd_ne by exact Hvt. reflexivity.
 Qed.
 
 Theorem typed_steps cf cf' : WT cf -> csteps cf cf' -> WT cf'.
@@ -406,15 +593,38 @@ Proof.
   intros Ht Hst. unfold step. destruct (Nat.ltb_spec t (length (ths s))); [|lia]. cbn [negb]. rewrite Hst. cbn [negb]. eauto.
 Qed.
 
+Lemma noborrowers_lends_from s t : (forall u, lend (getth s u) <> S t) -> lends_from s t = false.
+Proof.
+  intros H. unfold lends_from. destruct (existsb _ (ths s)) eqn:E; [|reflexivity].
+  apply existsb_exists in E. destruct E as (x & Hin & Hx). apply Nat.eqb_eq in Hx.
+  destruct (In_nth _ _ dth Hin) as (n & _ & En). specialize (H n). unfold getth in H. rewrite En in H. congruence.
+Qed.
+Lemma ok_readb s t : Inv s -> t < length (ths s) -> started (getth s t) = true -> lend (getth s t) <> 0 ->
+  exists s', step s t AReadB = Ok s'.
+Proof.
+  intros I Ht Hst Hl. destruct (step s t AReadB) as [s'|e|] eqn:E; [eauto|exfalso; eapply safe; eauto|exfalso].
+  open_step E Ht Hst. apply Nat.eqb_neq in Hl. rewrite Hl in E.
+  destruct (Mach.live s); cbn [negb] in E; [|discriminate]. destruct (cleb (Wc s) _); discriminate.
+Qed.
+Lemma ok_cloneb s t : Inv s -> t < length (ths s) -> started (getth s t) = true -> lend (getth s t) <> 0 ->
+  exists s', step s t ACloneB = Ok s'.
+Proof.
+  intros I Ht Hst Hl. destruct (step s t ACloneB) as [s'|e|] eqn:E; [eauto|exfalso; eapply safe; eauto|exfalso].
+  open_step E Ht Hst. apply Nat.eqb_neq in Hl. rewrite Hl in E.
+  destruct (Mach.live s); discriminate.
+Qed.
+
 Lemma ok_read_step s t g : Inv s -> t < length (ths s) -> started (getth s t) = true -> agree (getth s t) g ->
+  (g_bor g b0 = true -> lend (getth s t) <> 0) ->
   can_read g b0 -> exists s', read_step s t s'.
 Proof.
-  intros I Ht Hst (A1 & A2 & A3 & A4) [Hr|[He|(Hf & Hfen)]].
+  intros I Ht Hst (A1 & A2 & A3 & A4) Hbl [Hr|[He|[(Hf & Hfen)|Hb]]].
   - destruct (ok_read s t I Ht Hst) as (s' & E); [lia|]. exists s'. left. exact E.
   - assert (He' : excl (T s t) = true) by (unfold T; congruence).
     destruct (J5 s I t He') as (_ & Hr1 & _). unfold T in Hr1.
     destruct (ok_read s t I Ht Hst) as (s' & E); [lia|]. exists s'. left. exact E.
-  - destruct (ok_readm s t I Ht Hst) as (s' & E); [congruence|auto|]. exists s'. right. exact E.
+  - destruct (ok_readm s t I Ht Hst) as (s' & E); [congruence|auto|]. exists s'. right. left. exact E.
+  - destruct (ok_readb s t I Ht Hst (Hbl Hb)) as (s' & E). exists s'. right. right. exact E.
 Qed.
 
 Definition is_event (c : cmd unit) : Prop := match c with Ret _ | Unreachable => False | _ => True end.
@@ -423,9 +633,14 @@ Theorem typed_progress cf t :
   WT cf -> t < length (tc cf) -> started (getth (ms cf) t) = true -> is_event (cur (gettc cf t)) ->
   exists s' c' g', estep t (ms cf) (cur (gettc cf t)) (gh (gettc cf t)) s' c' g'.
 Proof.
-  intros [W1 W2 W3 W4 W5] Ht Hst Hev. destruct (W3 t Ht Hst) as (Hag & Hok).
+  intros [W1 W2 W3 W4 W5] Ht Hst Hev. destruct (W3 t Ht Hst) as (Hag & Hok & Hlt & Hbor).
   assert (Ht' : t < length (ths (ms cf))) by congruence.
-  pose proof (noloan_lends_from (ms cf) t W5) as Hlf.
+  assert (Hnil : lt (gettc cf t) = []).
+  { destruct (lt (gettc cf t)) eqn:E; [reflexivity|]. exfalso. rewrite Hlt in Hev by discriminate. exact Hev. }
+  assert (Hlf : lends_from (ms cf) t = false).
+  { apply noborrowers_lends_from. intros u Hu. apply (proj1 (W5 u t)) in Hu. destruct Hu as (_ & Hin). rewrite Hnil in Hin. exact Hin. }
+  assert (Hbl : g_bor (gh (gettc cf t)) b0 = true -> lend (getth (ms cf) t) <> 0).
+  { intros Hb. destruct (Hbor Hb) as [Hl|(Hf & _)]; [exact Hl|]. rewrite Hf in Hev. contradiction. }
   set (s := ms cf) in *. set (g := gh (gettc cf t)) in *.
   destruct (cur (gettc cf t)) as [r| |n k|b o n k|b n k|b c k|b k|b a o k|b o k|o k|p off n k|p off bs k|p x y n k];
     cbn [is_event okc] in *; try contradiction.
@@ -443,11 +658,13 @@ Proof.
       do 3 eexists. apply S_hdrinit. exact E.
     + do 3 eexists. apply S_hdrinit_o. exact Hne.
   - (* hdr cap *) destruct Hok as (Hr & _). destruct (Nat.eq_dec b b0) as [->|Hne].
-    + destruct (ok_read_step s t g W1 Ht' Hst Hag Hr) as (s' & E). exists s', (k 0%N), g. apply S_hdrcap. exact E.
+    + destruct (ok_read_step s t g W1 Ht' Hst Hag Hbl Hr) as (s' & E). exists s', (k 0%N), g. apply S_hdrcap. exact E.
     + exists s, (k 0%N), g. apply S_hdrcap_o. exact Hne.
   - (* rmw *) destruct a.
     + destruct Hok as (Hr & _). destruct (Nat.eq_dec b b0) as [->|Hne].
-      * destruct Hag as (A1 & _). destruct (ok_clone_step s t W1 Ht' Hst) as (s' & E); [lia|]. do 3 eexists. apply S_inc. exact E.
+      * destruct Hr as [Hr|Hb].
+        -- destruct Hag as (A1 & _). destruct (ok_clone_step s t W1 Ht' Hst) as (s' & E); [lia|]. do 3 eexists. apply S_inc. exact E.
+        -- destruct (ok_cloneb s t W1 Ht' Hst (Hbl Hb)) as (s' & E). do 3 eexists. apply S_inc_b. exact E.
       * exists s, (k 0%N), (g_inc g b). apply S_inc_o. exact Hne.
     + destruct Hok as (Hr & Hf & _). destruct (Nat.eq_dec b b0) as [->|Hne].
       * destruct Hag as (A1 & _ & A3 & _). destruct (ok_release s t W1 Ht' Hst) as (s' & E); [lia|congruence|exact Hlf|].
@@ -462,7 +679,7 @@ Proof.
     + do 3 eexists. apply S_fence_no. exact Ha.
   - (* read *) destruct p as [b|sid].
     + destruct Hok as (Hr & _). destruct (Nat.eq_dec b b0) as [->|Hne].
-      * destruct (ok_read_step s t g W1 Ht' Hst Hag Hr) as (s' & E). exists s', (k []), g. apply S_read. exact E.
+      * destruct (ok_read_step s t g W1 Ht' Hst Hag Hbl Hr) as (s' & E). exists s', (k []), g. apply S_read. exact E.
       * exists s, (k []), g. apply S_read_o. exact Hne.
     + exists s, (k []), g. apply S_read_static.
   - (* write *) destruct p as [b|sid]; [|contradiction]. destruct Hok as (He & _). destruct (Nat.eq_dec b b0) as [->|Hne].
@@ -476,8 +693,6 @@ Proof.
 Qed.
 
 (* ---------- the end: when every started thread has run to completion the buffer has been released ---------- *)
-Definition finished (x : tcfg) : Prop := cur x = Ret tt /\ rest x = [].
-
 Lemma total_zero l : (forall t, refs (nth t l dth) = 0) -> total l = 0.
 Proof.
   induction l as [|x l IH]; intros H; [reflexivity|]. rewrite total_cons.
@@ -492,8 +707,8 @@ Proof.
   assert (Hall : forall t, refs (getth (ms cf) t) = 0 /\ mustfree (getth (ms cf) t) = false).
   { intros t. destruct (started (getth (ms cf) t)) eqn:Hst.
     - destruct (Nat.lt_ge_cases t (length (tc cf))) as [Ht|Ht].
-      + destruct (W3 t Ht Hst) as ((A1 & _ & A3 & _) & Hok). destruct (Hfin t Ht Hst) as (Hc & Hr).
-        rewrite Hc, Hr in Hok. cbn [okc prog_ok] in Hok. destruct Hok as (R0 & F0). split; congruence.
+      + destruct (W3 t Ht Hst) as ((A1 & _ & A3 & _) & Hok & _). destruct (Hfin t Ht Hst) as (Hc & Hr).
+        rewrite Hc, Hr in Hok. cbn [okc prog_ok] in Hok. destruct Hok as (_ & R0 & F0). split; congruence.
       + unfold getth in Hst. rewrite nth_overflow in Hst by lia. discriminate.
     - destruct (J8 _ W1 t Hst) as (R0 & M0 & _). auto. }
   destruct (Mach.live (ms cf)) eqn:Hl; [exfalso|reflexivity].
@@ -518,7 +733,9 @@ Proof.
   - intros _. eexists. split; [reflexivity|]. rewrite <- A1.
     pose proof (rmw_value_ge_refs s t AClone s' I (or_introl eq_refl) H). lia.
   - intros _. eexists. split; [reflexivity|]. rewrite <- A1.
-    pose proof (rmw_value_ge_refs s t ARelease s' I (or_intror eq_refl) H). lia.
+    pose proof (rmw_value_ge_refs s t ACloneB s' I (or_intror (or_introl eq_refl)) H). lia.
+  - intros _. eexists. split; [reflexivity|]. rewrite <- A1.
+    pose proof (rmw_value_ge_refs s t ARelease s' I (or_intror (or_intror eq_refl)) H). lia.
   - intros _. eexists. split; [reflexivity|]. rewrite <- A1.
     pose proof (probe_value_ge_refs s t p m s' I H0 H). lia.
 Qed.
